@@ -194,8 +194,8 @@ impl SwiftField for Field58 {
                 let field = Field58D::parse(value)?;
                 Ok(Field58::D(field))
             }
-            None | Some("") => {
-                // No option letter given: fall back to default parse behavior
+            None => {
+                // No tag information at all (direct API use): fall back to default parse behavior
                 Self::parse(value)
             }
             Some(other) => Err(ParseError::InvalidFormat {
